@@ -149,11 +149,11 @@ var specs = []*PropSpec{
 	},
 	{
 		ID: "C12",
-		Cfg: Config{Property: "C12", CallUndefined: true, Assert: asserts("insert", "delete", "search", "all", "backward", "min", "max", "topk", "bottomk", "size", "shape", "twin"),
-			AuditOps: []string{"scan", "shape"}, AuditEvery: 7, ExcludeKF: true, Census: true, Twin: true},
+		Cfg: Config{Property: "C12", CallUndefined: true, Assert: asserts("insert", "delete", "search", "all", "backward", "min", "max", "topk", "bottomk", "range", "prefix", "size", "shape", "twin"),
+			AuditOps: []string{"scan", "shape", "extremes", "topbottom", "rangeaudit", "prefixaudit"}, AuditEvery: 7, ExcludeKF: true, Census: true, Twin: true},
 		Mix: withMix(baseMix, func(m *Mix) {
 			m.BulkInsert, m.BulkDelete, m.DeleteAll = 8, 8, 3
-			m.Scan = 1
+			m.Scan, m.Extremes, m.TopBottom, m.Range, m.Prefix, m.Size = 1, 3, 2, 2, 2, 1
 		}),
 		Families:  allFamilies,
 		Profiles:  []string{"fan", "fan", "fan", "dense"},
